@@ -183,6 +183,11 @@ impl<E: Probe> Exec for UnwindExec<E> {
         }
     }
 
+    /// the wrappers of track `scale` look at the real objects of the wrapped executor
+    fn as_any_mut(&mut self) -> Option<&mut dyn std::any::Any> {
+        self.inner.as_any_mut()
+    }
+
     fn flush_before(&self, w: &[&str]) -> bool {
         match w {
             ["unwinding", rest @ ..] => self.inner.flush_before(rest),
